@@ -39,6 +39,9 @@ typedef struct lltd_iface_state {
 
 static lltd_iface_state *g_iface_states = NULL;
 
+/* Upper bound on probes remembered between two Queries (per interface). */
+#define LLTD_SEE_LIST_MAX 1024
+
 #define log_debug(...) lltd_port_log_debug(__VA_ARGS__)
 #define log_warning(...) lltd_port_log_warning(__VA_ARGS__)
 #define log_err(...) lltd_port_log_warning(__VA_ARGS__)
@@ -548,6 +551,12 @@ static void parseProbe(void *inFrame, lltd_iface_state *st, void *iface_ctx) {
     }
 
     if (found) {
+        lltd_port_free(probe);
+        return;
+    }
+
+    if (st->see_list_count >= LLTD_SEE_LIST_MAX) {
+        /* A mapper that never queries (or a flood) must not grow the list without bound. */
         lltd_port_free(probe);
         return;
     }
